@@ -271,3 +271,44 @@ def c16_units(tier, seed):
 
 
 PROPS["C16"] = dict(units=c16_units, bounds_text="every second of each listed civil year, three year/month conventions, both hour-star routes", outside="years not listed")
+
+
+def c08_units(tier, seed):
+    q = tier == "quick"
+    us = [dict(id=f"C08a[sect={s},base={b}]", harness="calendar.VH_C08_Field", params={"Y": b, "SECT": s}) for s in (1, 2) for b in ((2020,) if q else (2020, 1990, 15))]
+    ys = year_set(tier, seed, budget_quick=6) if q else year_set(tier, seed)[::4]
+    for Y in ys:
+        for m in range(1, 13):
+            us.append(dict(id=f"C08b[Y={Y},m={m}]", harness="calendar.VH_C08_Year", params={"Y": Y, "SECT": 1 + (Y + m) % 2, "GENDER": (Y // 2 + m) % 2}, concrete={"v_m": m}))
+    for Y in (year_set(tier, seed, budget_quick=8) if q else year_set(tier, seed)[::2]):
+        if Y < 2 or Y > 9997:
+            continue
+        us.append(dict(id=f"C08c[Y={Y}]", harness="calendar.VH_C08_Containers", params={"Y": Y}))
+    return us
+
+
+def c11_units(tier, seed):
+    q = tier == "quick"
+    us = []
+    for b in ((2020,) if q else (2020, 1990, 15)):
+        for s in (1, 2):
+            us.append(dict(id=f"C11a[sect={s},base={b}]", harness="calendar.VH_C11_Routes", params={"Y": b, "SECT": s}))
+            us.append(dict(id=f"C11b[sect={s},base={b}]", harness="calendar.VH_C11_PillarPure", params={"Y": b, "SECT": s}))
+    return us
+
+
+def c18_units(tier, seed):
+    q = tier == "quick"
+    us = []
+    for b in ((2020,) if q else (2020, 1990, 15)):
+        us.append(dict(id=f"C18a[base={b}]", harness="calendar.VH_C18_Pure", params={"Y": b}))
+        us.append(dict(id=f"C18b[base={b}]", harness="calendar.VH_C18_Laws", params={"Y": b}))
+    us.append(dict(id="C18c", harness="calendar.VH_C18_Tables", params={}))
+    return us
+
+
+_field = "field-level: every state of the lunar date satisfying the class invariant InvLunar (pillar fields symbolic: month -12..12 except 0, day 1..30, hour, minute, the 60-cycle indices of year/month/day pillars with their by-Lichun / exact variants within one step, weekday), term table and civil date of a concrete base day"
+PROPS["C08"] = dict(units=c08_units, bounds_text=_field + "; real objects: every second of each listed year for the accessors that build other dates, the fortune chain and the packed-table lists (pillars concretised per month); containers of each listed year",
+                    outside="Solar.GetJulianDay at second resolution (not encodable; 3-hour marks in C04); years not listed for the real-object part", unit_timeout_ms={"quick": 900000, "thorough": 2400000})
+PROPS["C11"] = dict(units=c11_units, bounds_text=_field + ", both sects; pillar purity over pairs of such states", outside="list-valued hour yi/ji routes; reverse lookup default sect (C10)", unit_timeout_ms={"quick": 900000, "thorough": 2400000})
+PROPS["C18"] = dict(units=c18_units, bounds_text=_field + "; purity over pairs of such states; table laws evaluated concretely", outside="list-valued yi/ji/jishen/xiongsha purity (structural: the accessors pass exactly the pillar strings to table functions)")
